@@ -193,6 +193,7 @@ fn execute<S: Sys, T>(sc: &Scope, hist: &[Op], verify_last: bool, f: impl FnOnce
     }))
     .unwrap_or_else(|p| Err(Viol::new("api.panic", format!("panic outside a guarded call (observer or constructor): {}", crate::wops::panic_msg(&p)))));
     let rep = close_window();
+    crate::crash::exec_end();
     let res = res?;
     if !rep.errors.is_empty() {
         return Err(Viol::new("alloc.error", rep.errors.join("; ")));
